@@ -19,6 +19,7 @@ package cfevesting
 //@   requires forall i: int :: {genState.VestingTypes[i].Name} 0 <= i && i < len(genState.VestingTypes) ==> genTypeFits(genState.VestingTypes[i])
 //@   requires forall i: int :: {genState.AccountVestingPools[i]} 0 <= i && i < len(genState.AccountVestingPools) ==> genState.AccountVestingPools[i] != nil
 //@     && (forall j: int :: {genState.AccountVestingPools[i].VestingPools[j]} 0 <= j && j < len(genState.AccountVestingPools[i].VestingPools) ==> genState.AccountVestingPools[i].VestingPools[j] != nil)
+//@   requires forall i: int, j: int :: {genState.AccountVestingPools[i], genState.AccountVestingPools[j]} 0 <= i && i < j && j < len(genState.AccountVestingPools) ==> genState.AccountVestingPools[i].Owner != genState.AccountVestingPools[j].Owner
 //@   modifies $kvHas, $kvVal, $pFound, $pGenesis, $pIL, $pLen, $pLockEnd, $pLockStart, $pName, $pS, $pType, $pW
 //@   modifies $trFound, $trGenesis, $trFromGenesisPool, $trFromGenesisAccount, $vtFound, $vtFree, $vtLockup, $vtVesting
 //@   ensures [vesting-types] forall i: int :: {genState.VestingTypes[i].Name} 0 <= i && i < len(genState.VestingTypes) ==>
@@ -26,10 +27,42 @@ package cfevesting
 //@     && $vtLockup[genState.VestingTypes[i].Name] == unitNs(genState.VestingTypes[i].LockupPeriodUnit) * genState.VestingTypes[i].LockupPeriod
 //@     && $vtVesting[genState.VestingTypes[i].Name] == unitNs(genState.VestingTypes[i].VestingPeriodUnit) * genState.VestingTypes[i].VestingPeriod
 //@     && $vtFree[genState.VestingTypes[i].Name] == genState.VestingTypes[i].Free
+//@   // every pool record of the genesis is stored, field by field (initially locked, withdrawn, sent, lock times, type, genesis flag)
+//@   ensures [pools] forall i: int :: {genState.AccountVestingPools[i]} 0 <= i && i < len(genState.AccountVestingPools) ==> poolsStored(genState.AccountVestingPools[i])
+//@   // every lineage record of the genesis is stored
+//@   ensures [traces] forall i: int :: {genState.VestingAccountTraces[i].Address} 0 <= i && i < len(genState.VestingAccountTraces) ==> $trFound[genState.VestingAccountTraces[i].Address]
 //@   prop C12
+//@ pred poolsStored(av) = $pFound[av.Owner] && $pLen[av.Owner] == len(av.VestingPools)
+//@   && (forall m: int :: {av.VestingPools[m]} 0 <= m && m < len(av.VestingPools) ==> poolFieldsEq(av.VestingPools[m], av.Owner, m))
+//@ pred poolFieldsEq(p, o, i) = p.Name == $pName[o][i] && p.VestingType == $pType[o][i] && p.LockStart == $pLockStart[o][i]
+//@   && p.LockEnd == $pLockEnd[o][i] && p.InitiallyLocked == $pIL[o][i] && p.Withdrawn == $pW[o][i] && p.Sent == $pS[o][i] && p.GenesisPool == $pGenesis[o][i]
+//@ loop InitGenesis#1
+//@   invariant 0 <= \i && \i <= len(genState.VestingAccountTraces)
+//@   invariant forall j: int :: {genState.VestingAccountTraces[j].Address} 0 <= j && j < \i ==> $trFound[genState.VestingAccountTraces[j].Address]
+//@ loop InitGenesis#3
+//@   invariant 0 <= \i && \i <= len(genState.AccountVestingPools)
+//@   invariant forall j: int :: {genState.AccountVestingPools[j]} 0 <= j && j < \i ==> poolsStored(genState.AccountVestingPools[j])
 //@ loop InitGenesis#2
 //@   invariant 0 <= \i && \i <= len(genState.VestingTypes) && len(vestingTypes.VestingTypes) == \i && off(vestingTypes.VestingTypes) == 0
 //@   invariant forall j: int :: {vestingTypes.VestingTypes[j]} 0 <= j && j < \i ==> vestingTypes.VestingTypes[j] != nil
 //@     && vestingTypes.VestingTypes[j].Name == genState.VestingTypes[j].Name && vestingTypes.VestingTypes[j].Free == genState.VestingTypes[j].Free
 //@     && vestingTypes.VestingTypes[j].LockupPeriod == unitNs(genState.VestingTypes[j].LockupPeriodUnit) * genState.VestingTypes[j].LockupPeriod
 //@     && vestingTypes.VestingTypes[j].VestingPeriod == unitNs(genState.VestingTypes[j].VestingPeriodUnit) * genState.VestingTypes[j].VestingPeriod
+
+//@ // export: every vesting type is written with a unit and value that DurationFromUnits maps back to the stored period; the
+//@ // parameters, pool records and lineage records are the stored ones
+//@ pred exportedTypesOK(g) = forall i: int :: {g.VestingTypes[i].Name} 0 <= i && i < len(g.VestingTypes) ==>
+//@     $vtFound[g.VestingTypes[i].Name] && knownUnit(g.VestingTypes[i].LockupPeriodUnit) && knownUnit(g.VestingTypes[i].VestingPeriodUnit)
+//@     && unitNs(g.VestingTypes[i].LockupPeriodUnit) * g.VestingTypes[i].LockupPeriod == $vtLockup[g.VestingTypes[i].Name]
+//@     && unitNs(g.VestingTypes[i].VestingPeriodUnit) * g.VestingTypes[i].VestingPeriod == $vtVesting[g.VestingTypes[i].Name]
+//@     && g.VestingTypes[i].Free == $vtFree[g.VestingTypes[i].Name]
+//@ func ExportGenesis(ctx, k) (genesis)
+//@   ensures genesis != nil && genesis.Params.Denom == $vestingDenom
+//@   ensures [vesting-types] exportedTypesOK(genesis)
+//@   ensures [traces] len(genesis.VestingAccountTraces) == $trListN
+//@     && (forall i: int :: {genesis.VestingAccountTraces[i].Address} 0 <= i && i < $trListN ==> genesis.VestingAccountTraces[i].Address == $trList[i]
+//@        && genesis.VestingAccountTraces[i].Genesis == $trGenesis[$trList[i]] && genesis.VestingAccountTraces[i].FromGenesisPool == $trFromGenesisPool[$trList[i]]
+//@        && genesis.VestingAccountTraces[i].FromGenesisAccount == $trFromGenesisAccount[$trList[i]])
+//@   prop C12
+//@ loop ExportGenesis#1
+//@   invariant 0 <= i && i <= len(allAccountVestingPools) && genesis != nil && genesis.Params.Denom == $vestingDenom && exportedTypesOK(genesis)
